@@ -582,6 +582,28 @@ static void latchScenario(int calls) {
   }
 }
 
+// a latch that lives only as long as its waiter needs it (the canonical use: `CountDownLatch done(1); hand &done to a
+// worker; done.wait();` and the frame is left).  wait() may return as soon as the count is 0 and the mutex is free, so
+// everything countDown() does to the latch must happen before it releases the mutex; a notification issued after the
+// unlock runs on a destroyed condition variable (TSan: pthread_cond_broadcast vs pthread_cond_destroy).
+static void shortLatchScenario(int rounds) {
+  BlockingQueue<CountDownLatch*> q;
+  std::thread worker([&] {
+    for (;;) {
+      CountDownLatch* l = q.take();
+      if (!l) return;
+      l->countDown();
+    }
+  });
+  for (int it = 0; it < g_iters * rounds; ++it) {
+    CountDownLatch done(1);
+    q.put(&done);
+    done.wait();
+  }
+  q.put(NULL);
+  worker.join();
+}
+
 static AsyncLogging* g_async = NULL;
 static void asyncOutput(const char* msg, int len) { g_async->append(msg, len); }
 static void discardOutput(const char*, int) {}
@@ -666,6 +688,7 @@ static std::vector<Scenario>& scenarios() {
   v.push_back({"BlockingQueue", [] { blockingQueueScenario(300); }});
   v.push_back({"BoundedBlockingQueue", [] { boundedQueueScenario(300); }});
   v.push_back({"CountDownLatch", [] { latchScenario(50); }});
+  v.push_back({"CountDownLatch::shortlived", [] { shortLatchScenario(60); }});
   v.push_back({"AsyncLogging::append", [] { asyncScenario(3000); }});
   v.push_back({"LOG", [] { logScenario(400, false); }});
   v.push_back({"LOG+AsyncLogging", [] { logScenario(400, true); }});
